@@ -105,11 +105,11 @@ let () = each_line (fun line ->
        let s = ref (init fs) in
        let outs = List.map (fun t ->
            let o = match t.[0] with
-             | 'O' -> OOpen | 'C' -> OCheck false | 'Q' -> OCheck true | 'S' | 's' -> OStop | 'X' | 'x' -> OClose
+             | 'O' -> OOpen | 'C' -> OCheck false | 'Q' -> OCheck true | 'S' | 's' -> OStop | 'X' | 'x' | 'z' -> OClose
              | 'K' -> OTick | 'W' | 'w' -> ORunAll | 'D' -> ODeliver (nat_of_int (num t))
              | _ -> failwith "op" in
            s := step hfun pln expected !s o;
-           snapshot pl !s) (split_ws ops) in
+           if t.[0] = 'z' then "removed" else snapshot pl !s) (split_ws ops) in
        if !s.s_ierr then "ERR:internal" else
        String.concat ";" outs ^ " # " ^ String.concat " " (List.map disk_token !s.s_files)
        ^ (if !s.s_ierr then " ierr=1" else " ierr=0")
